@@ -1,8 +1,306 @@
-//! Bounded-exhaustive (SmallCheck-style) enumeration drivers.
+//! Bounded-exhaustive (SmallCheck-style) enumeration drivers: every op sequence up to a depth
+//! over a fully instantiated alphabet (histories), every ordered arrangement of every subset
+//! on both sides (pair engines).
 
-use crate::{Agg, Known};
-use mmv::case::Prop;
+use crate::{evaluate, Agg, Known, Verdict, WORKERS};
+use mmv::case::{Case, Engine, Prop};
+use mmv::plan::Campaign;
 
-pub fn run(_prop: Prop, _tier: &str, _known: &Known) -> Option<(Agg, String)> {
-    None
+fn code_for(weights: &[u8], op: usize) -> Option<u8> {
+    let total: usize = weights.iter().map(|x| *x as usize).sum();
+    (0..=255u8).find(|c| {
+        let t = (*c as usize * total) >> 8;
+        let mut acc = 0;
+        for (i, w) in weights.iter().enumerate() {
+            acc += *w as usize;
+            if t < acc {
+                return i == op;
+            }
+        }
+        false
+    })
+}
+
+fn key_byte(k: usize, u: usize) -> u8 {
+    // smallest a with (a*u)>>8 == k
+    ((k * 256 + u - 1) / u) as u8
+}
+
+/// Alphabet of fully instantiated raw ops for a map history over U keys.
+fn map_alphabet(prop: Prop, u: usize) -> Vec<[u8; 4]> {
+    use mmv::maphist::*;
+    let w = weights(prop);
+    let mut al: Vec<[u8; 4]> = Vec::new();
+    let mut add = |op: usize, a: u8, b: u8, c: u8| {
+        if let Some(code) = code_for(&w, op) {
+            al.push([code, a, b, c]);
+        }
+    };
+    for k in 0..u {
+        let a = key_byte(k, u);
+        add(OP_INSERT, a, 1, 0);
+        add(OP_INSERT_KV, a, 2, 0);
+        add(OP_CHECKED, a, 3, 0);
+        add(OP_REMOVE, a, 0, 0);
+        add(OP_REMOVE_ENTRY, a, 0, 1);
+        add(OP_GET_MUT, a, 4, 1);
+        add(OP_INDEX_MUT, a, 5, 0);
+        if matches!(prop, Prop::C05 | Prop::C11 | Prop::C04 | Prop::C02 | Prop::C12) {
+            // entry: one general chain and one variant-specific method per key
+            add(OP_ENTRY, a, 6, 0); // or_insert
+            add(OP_ENTRY, a, 7, 40); // occupied.remove / vacant.*
+        }
+    }
+    // retain: keep only key 0, keep all but key 0, keep none
+    add(OP_RETAIN, 1, 0b001, 0);
+    add(OP_RETAIN, 0, 0b110, 0);
+    add(OP_RETAIN, 0, 0, 0);
+    add(OP_CLEAR, 0, 0, 0);
+    add(OP_DRAIN, 0, 128, 0);
+    if matches!(prop, Prop::C02 | Prop::C04 | Prop::C10) {
+        add(OP_CONSUME, 0, 128, 0);
+        add(OP_CONSUME, 0, 128, 100);
+        add(OP_DRAIN, 0, 128, 100);
+    }
+    if matches!(prop, Prop::C02 | Prop::C04 | Prop::C15) {
+        add(OP_CLONE, 0, 0, 0);
+    }
+    if matches!(prop, Prop::C04) {
+        add(OP_FROM_ITER, 200, 7, 0);
+    }
+    al
+}
+
+fn set_alphabet(prop: Prop, u: usize) -> Vec<[u8; 4]> {
+    use mmv::sethist::{weights, NOPS};
+    let w: [u8; NOPS] = weights(prop);
+    let mut al: Vec<[u8; 4]> = Vec::new();
+    let mut add = |op: usize, a: u8, b: u8, c: u8| {
+        if let Some(code) = code_for(&w, op) {
+            al.push([code, a, b, c]);
+        }
+    };
+    for k in 0..u {
+        let a = key_byte(k, u);
+        add(0, a, 0, 0); // insert
+        add(1, a, 0, 0); // replace
+        add(4, a, 0, 0); // remove
+        add(5, a, 0, 1); // take
+        add(3, a, 0, 1); // get
+    }
+    add(6, 0, 0b001, 0);
+    add(6, 0, 0b110, 0);
+    add(7, 0, 0, 0);
+    add(8, 0, 128, 0);
+    add(11, 3, 9, 60); // extend
+    if matches!(prop, Prop::C02 | Prop::C04) {
+        add(10, 0, 128, 0);
+        add(12, 0, 0, 0);
+        add(16, 255, 0, 0); // sub
+    }
+    al
+}
+
+fn enumerate_histories(prop: Prop, engine: Engine, kind: u8, cap_idx: u8, univ: u8, alphabet: &[[u8; 4]], depth: usize, fault: bool, known: &Known) -> Agg {
+    let camp = Campaign { name: "enum", engine, kinds: &[0], max_ops: depth, cases: (0, 0), caps: None, fault };
+    let mut total = Agg::new();
+    let n = alphabet.len();
+    if n == 0 {
+        return total;
+    }
+    std::thread::scope(|sc| {
+        let mut hs = vec![];
+        for wk in 0..WORKERS {
+            let camp = camp.clone();
+            hs.push(sc.spawn(move || {
+                let mut agg = Agg::new();
+                // all sequences of length 0..=depth, partitioned by (first symbol index % WORKERS)
+                let mut idx: Vec<usize> = Vec::new();
+                if wk == 0 {
+                    let c = Case { engine, prop, kind, cap: cap_idx, cap2: 0, univ, mode: 0, fuse: -1, ops: vec![] };
+                    if let Verdict::Fail(c, m, s) = evaluate(&c, prop, &camp, Some(&mut agg), known) {
+                        agg.violation = Some((c, m, s));
+                        return agg;
+                    }
+                }
+                for len in 1..=depth {
+                    for first in (wk..n).step_by(WORKERS) {
+                        idx.clear();
+                        idx.resize(len, 0);
+                        idx[0] = first;
+                        loop {
+                            let ops: Vec<[u8; 4]> = idx.iter().map(|i| alphabet[*i]).collect();
+                            let c = Case { engine, prop, kind, cap: cap_idx, cap2: 0, univ, mode: 0, fuse: -1, ops };
+                            if let Verdict::Fail(c, m, s) = evaluate(&c, prop, &camp, Some(&mut agg), known) {
+                                agg.violation = Some((c, m, s));
+                                return agg;
+                            }
+                            // odometer over positions 1..len
+                            let mut p = len;
+                            loop {
+                                if p == 1 {
+                                    p = 0;
+                                    break;
+                                }
+                                p -= 1;
+                                idx[p] += 1;
+                                if idx[p] < n {
+                                    break;
+                                }
+                                idx[p] = 0;
+                            }
+                            if p == 0 {
+                                break;
+                            }
+                        }
+                    }
+                }
+                agg
+            }));
+        }
+        for h in hs {
+            if let Ok(a) = h.join() {
+                total.merge(a);
+            }
+        }
+    });
+    total
+}
+
+/// all ordered arrangements of all subsets of 0..u (as key lists)
+fn arrangements(u: usize) -> Vec<Vec<usize>> {
+    let mut out: Vec<Vec<usize>> = vec![vec![]];
+    let mut frontier: Vec<Vec<usize>> = vec![vec![]];
+    for _ in 0..u {
+        let mut next = vec![];
+        for a in &frontier {
+            for k in 0..u {
+                if !a.contains(&k) {
+                    let mut b = a.clone();
+                    b.push(k);
+                    next.push(b);
+                }
+            }
+        }
+        out.extend(next.iter().cloned());
+        frontier = next;
+    }
+    out
+}
+
+fn enumerate_pairs(prop: Prop, engine: Engine, kind: u8, pairs: &[(u8, u8)], u: usize, values: usize, known: &Known) -> Agg {
+    use mmv::case::CAPS2;
+    let camp = Campaign { name: "enum-pairs", engine, kinds: &[0], max_ops: 2 * u, cases: (0, 0), caps: None, fault: false };
+    // one side = arrangement (x value assignment for maps)
+    let arr = arrangements(u);
+    let mut sides: Vec<Vec<[u8; 3]>> = Vec::new(); // (a byte, b byte, unused)
+    for a in &arr {
+        let combos = values.pow(a.len() as u32);
+        for vc in 0..combos {
+            let mut x = vc;
+            let mut s = vec![];
+            for k in a {
+                s.push([key_byte(*k, u), (x % values) as u8, 0]);
+                x /= values;
+            }
+            sides.push(s);
+        }
+    }
+    let mut total = Agg::new();
+    std::thread::scope(|sc| {
+        let mut hs = vec![];
+        for wk in 0..WORKERS {
+            let camp = camp.clone();
+            let sides = &sides;
+            hs.push(sc.spawn(move || {
+                let mut agg = Agg::new();
+                for (ci, cj) in pairs {
+                    let (n, m) = (CAPS2[*ci as usize], CAPS2[*cj as usize]);
+                    for (li, l) in sides.iter().enumerate() {
+                        if li % WORKERS != wk || l.len() > n {
+                            continue;
+                        }
+                        for r in sides.iter() {
+                            if r.len() > m {
+                                continue;
+                            }
+                            let mut ops: Vec<[u8; 4]> = l.iter().map(|s| [0, s[0], s[1], 0]).collect();
+                            ops.extend(r.iter().map(|s| [0, s[0], s[1], 0x80]));
+                            let c = Case { engine, prop, kind, cap: *ci, cap2: *cj, univ: u as u8, mode: 0, fuse: -1, ops };
+                            if let Verdict::Fail(c, msg, s) = evaluate(&c, prop, &camp, Some(&mut agg), known) {
+                                agg.violation = Some((c, msg, s));
+                                return agg;
+                            }
+                        }
+                    }
+                }
+                agg
+            }));
+        }
+        for h in hs {
+            if let Ok(a) = h.join() {
+                total.merge(a);
+            }
+        }
+    });
+    total
+}
+
+pub fn run(prop: Prop, tier: &str, known: &Known) -> Option<(Agg, String)> {
+    let thorough = tier == "thorough";
+    match prop {
+        Prop::C01 | Prop::C05 | Prop::C02 | Prop::C11 | Prop::C12 => {
+            let depth = if thorough { 5 } else { 4 };
+            let mut total = Agg::new();
+            // tracked kind; N=1 (cap index 1), U=2 and N=2 (cap index 2), U=3
+            for (cap_idx, u) in [(1u8, 2usize), (2u8, 3usize)] {
+                let al = map_alphabet(prop, u);
+                let d = if u == 3 { depth - 1 } else { depth };
+                let a = enumerate_histories(prop, Engine::MapHist, 0, cap_idx, u as u8, &al, d, false, known);
+                total.merge(a);
+                if total.violation.is_some() {
+                    break;
+                }
+            }
+            Some((total, format!("all Map op sequences over the instantiated alphabet (insert/insert_key_value/checked_insert/remove/remove_entry/get_mut/index_mut per key, retain x3, clear, drain, entry where relevant): N=1,U=2 up to depth {depth}; N=2,U=3 up to depth {}", depth - 1)))
+        }
+        Prop::C07 => {
+            let depth = if thorough { 5 } else { 4 };
+            let mut total = Agg::new();
+            for (cap_idx, u) in [(1u8, 2usize), (2u8, 3usize)] {
+                let al = set_alphabet(prop, u);
+                let d = if u == 3 { depth - 1 } else { depth };
+                total.merge(enumerate_histories(prop, Engine::SetHist, 0, cap_idx, u as u8, &al, d, false, known));
+                if total.violation.is_some() {
+                    break;
+                }
+            }
+            Some((total, format!("all Set op sequences over the instantiated alphabet (insert/replace/remove/take/get per element, retain x2, clear, drain, extend): N=1,U=2 up to depth {depth}; N=2,U=3 up to depth {}", depth - 1)))
+        }
+        Prop::C04 => {
+            let depth = if thorough { 4 } else { 3 };
+            let mut total = Agg::new();
+            let al = map_alphabet(prop, 2);
+            total.merge(enumerate_histories(prop, Engine::MapHist, 0, 2, 2, &al, depth, true, known));
+            if total.violation.is_none() {
+                let al = set_alphabet(prop, 2);
+                total.merge(enumerate_histories(prop, Engine::SetHist, 0, 2, 2, &al, depth, true, known));
+            }
+            Some((total, format!("every callback position of every Map and Set op sequence up to depth {depth} over the instantiated alphabet (N=2, U=2, incl. clone, drain, consume, from_iter, entry, extend, sub)")))
+        }
+        Prop::C08 => {
+            let pairs: Vec<(u8, u8)> = if thorough { (0..5).flat_map(|i| (0..5).map(move |j| (i, j))).collect() } else { vec![(4, 4), (3, 4), (4, 2), (2, 3), (1, 4), (0, 3)] };
+            let a = enumerate_pairs(prop, Engine::SetAlg, 0, &pairs, 4, 1, known);
+            Some((a, format!("universe of 4 elements: every ordered arrangement of every subset (65) on the left x the same on the right, for capacity pairs (indices into {{0,1,2,3,5}}) {pairs:?} that can hold them")))
+        }
+        Prop::C14 => {
+            let pairs: Vec<(u8, u8)> = if thorough { (0..5).flat_map(|i| (0..5).map(move |j| (i, j))).collect() } else { vec![(3, 3), (3, 4), (4, 3), (2, 3)] };
+            let mut a = enumerate_pairs(prop, Engine::MapEq, 0, &pairs, 3, 2, known);
+            if a.violation.is_none() {
+                a.merge(enumerate_pairs(prop, Engine::SetAlg, 0, &pairs, 3, 1, known));
+            }
+            Some((a, format!("maps over keys {{0,1,2}} x values {{0,1}}: all 79 arrangements (every partial map in every slot order) on both sides, and sets over 3 elements (16 arrangements) on both sides, for capacity pairs {pairs:?}")))
+        }
+        _ => None,
+    }
 }
